@@ -29,17 +29,22 @@ Theorem C20_fetch_nothing_else_escapes (fetcher : string -> fret) (A : Type) url
              x = URLFetchingError (e_name e ++ ": " ++ e_msg e)%string) \/
   (exists e, fetcher url = FRaise e /\ e_is_exception e = false /\ x = Raised e) \/
   (fetcher url = FNotDict /\ x = AttributeError "setdefault") \/
-  (exists d, fetcher url = FDict d /\ fst (body (setdefaults url d)) = Exc x).
+  (exists d, fetcher url = FDict d /\
+     match d_file d with
+     | Some _ => convert_stream_error (fst (body (setdefaults url d))) = Exc x
+     | None => fst (body (setdefaults url d)) = Exc x
+     end).
 Proof. exact (fetch_exception_cases fetcher A url body x). Qed.
 Print Assumptions C20_fetch_nothing_else_escapes.
 
 (* file_obj is closed exactly once, after everything the body did and whatever the body's outcome; a failing
-   close() is a warning, not an error *)
+   close() is a warning, not an error; an EOFError / HTTPException / OSError / zlib.error raised while the
+   stream is in use comes out as URLFetchingError (convert_stream_error) *)
 Theorem C20_fetch_closes_file_obj (fetcher : string -> fret) (A : Type) url
         (body : fdict -> outcome A * list event) d f :
   fetcher url = FDict d -> d_file d = Some f ->
   fetch fetcher url body =
-    (fst (body (setdefaults url d)),
+    (convert_stream_error (fst (body (setdefaults url d))),
      Called url :: snd (body (setdefaults url d)) ++ Closed (fo_id f) ::
        (if fo_close_raises f then [CloseWarning url] else [])).
 Proof. exact (fetch_closes_file_obj fetcher A url body d f). Qed.
@@ -53,12 +58,12 @@ Theorem C20_fetch_string_only (fetcher : string -> fret) (A : Type) url
 Proof. exact (fetch_without_file_obj fetcher A url body d). Qed.
 Print Assumptions C20_fetch_string_only.
 
-(* the five consumers (image, linked sheet, @import, font source, attachment): an Exception raised by the
-   call, or any answer that carries data, never escapes - the resource is used or treated as absent, and
-   "absent" always comes with a log record *)
+(* the six consumers (image, linked sheet, @import, font source, attachment, external SVG <use>): an Exception
+   raised by the call, any answer that carries data, and a stream that dies with an I/O, HTTP or decompression
+   error never escape - the resource is used or treated as absent, and "absent" always comes with a log *)
 Theorem C20_consumers_degrade_gracefully (fetcher : string -> fret) c url :
   (exists e, fetcher url = FRaise e /\ e_is_exception e = true) \/
-  (exists d, fetcher url = FDict d /\ has_data d = true) ->
+  (exists d, fetcher url = FDict d /\ (has_data d = true \/ dies_with_io d = true)) ->
   exists v ev logs, consume fetcher c url = (Val v, ev, logs) /\ (v = None -> logs <> []).
 Proof. exact (consume_graceful fetcher c url). Qed.
 Print Assumptions C20_consumers_degrade_gracefully.
@@ -67,24 +72,36 @@ Print Assumptions C20_consumers_degrade_gracefully.
 Theorem C20_consumer_escapes_characterised (fetcher : string -> fret) c url x ev logs :
   consume fetcher c url = (Exc x, ev, logs) ->
   (exists e, fetcher url = FRaise e /\ e_is_exception e = false /\ x = Raised e) \/
-  (c <> CFontSrc /\ fetcher url = FNotDict /\ x = AttributeError "setdefault") \/
-  (c <> CFontSrc /\ exists d, fetcher url = FDict d /\ d_string d = None /\ d_file d = None /\
-                              x = KeyError "file_obj") \/
+  (catches c (AttributeError "setdefault") = false /\ fetcher url = FNotDict /\
+     x = AttributeError "setdefault") \/
+  (catches c (KeyError "file_obj") = false /\
+     exists d, fetcher url = FDict d /\ d_string d = None /\ d_file d = None /\ x = KeyError "file_obj") \/
   (exists d f e, fetcher url = FDict d /\ d_string d = None /\ d_file d = Some f /\
-                 fo_read f = ReadRaises e /\ x = Raised e /\ (c = CFontSrc -> e_is_exception e = false)).
+                 fo_read f = ReadRaises e /\ x = Raised e /\ e_is_io e = false /\
+                 catches c (Raised e) = false).
 Proof. exact (consume_escape_cases fetcher c url x ev logs). Qed.
 Print Assumptions C20_consumer_escapes_characterised.
 
-(* REFUTED (finding fetch-body-read-error-escapes): "every failure of a fetch is logged and skipped" is false
-   for the body of the answer: an Exception raised by file_obj.read() escapes every consumer but the font one *)
-Theorem C20_read_error_escapes_refuted :
+(* REPAIRED (finding fetch-body-read-error-escapes, F98): a stream that dies with a time-out, a reset, a
+   truncated gzip body is a fetching error for every consumer: resource skipped, failure logged, stream closed *)
+Theorem C20_read_io_error_is_fetching_error (fetcher : string -> fret) c url d f e :
+  fetcher url = FDict d -> d_string d = None -> d_file d = Some f -> fo_read f = ReadRaises e ->
+  e_is_io e = true -> e_name e <> "StopIteration" ->
+  exists ev logs, consume fetcher c url = (Val None, ev, logs) /\ logs <> [] /\ In (Closed (fo_id f)) ev.
+Proof. exact (read_io_error_is_fetching_error fetcher c url d f e). Qed.
+Print Assumptions C20_read_io_error_is_fetching_error.
+
+(* STILL REFUTED (residual, signature fetch-body-read-other-error-escapes): an Exception outside EOFError /
+   HTTPException / OSError / zlib.error raised by file_obj.read() escapes the image, sheet and attachment
+   consumers *)
+Theorem C20_read_other_error_escapes_refuted :
   exists (fetcher : string -> fret) (url : string) (e : exn),
     e_is_exception e = true /\
-    (forall c, c <> CFontSrc -> c <> CLinkSheet ->
+    (forall c, catches c (Raised e) = false -> c <> CLinkSheet ->
                exists ev, consume fetcher c url = (Exc (Raised e), ev, [])) /\
     (exists ev, consume fetcher CImage url = (Exc (Raised e), ev, []) /\ In (Closed 1) ev).
-Proof. exact read_error_escapes_refuted. Qed.
-Print Assumptions C20_read_error_escapes_refuted.
+Proof. exact read_other_error_escapes_refuted. Qed.
+Print Assumptions C20_read_other_error_escapes_refuted.
 
 (* ---- 2. url_join / iri_to_uri ---- *)
 
@@ -122,21 +139,24 @@ Theorem C20_cache_transparent W fails c0 d : cache_ok W fails c0 ->
 Proof. exact (machine_is_filtered_semantics W fails c0 d). Qed.
 Print Assumptions C20_cache_transparent.
 
-(* each image URL is fetched at most once per render and never when the cache holds it (option cache shared
-   between renders); every URL an image position asks for is cached or fetched *)
+(* each cached request - an image URL with its image-orientation, an external <use> of a loaded SVG image -
+   is fetched at most once per render and never when the cache holds it (option cache shared between
+   renders): the cached fetches are exactly the first occurrences of the requests *)
 Theorem C20_image_fetched_once W fails c0 d : cache_ok W fails c0 ->
-  let fs := fetches_on ChImage (snd (m_doc W fails c0 d)) in
-  NoDup fs /\
-  (forall u, In u fs -> ~ In u (keys c0) /\ In u (requests (sem_doc W fails d))) /\
-  (forall u, In u (requests (sem_doc W fails d)) -> In u (keys c0) \/ In u fs).
+  let ks := dedup (keys c0) (requests (sem_doc W fails d)) in
+  keyed_fetches (snd (m_doc W fails c0 d)) = map key_fetch ks /\
+  NoDup ks /\
+  (forall k, In k ks -> ~ In k (keys c0) /\ In k (requests (sem_doc W fails d))) /\
+  (forall k, In k (requests (sem_doc W fails d)) -> In k (keys c0) \/ In k ks).
 Proof. exact (image_fetched_once W fails c0 d). Qed.
 Print Assumptions C20_image_fetched_once.
 
 (* expected_fetches: the multiset of URLs a render requests = the stylesheet, font, <use> and attachment
-   references reached (with multiplicity) + each requested image URL once *)
+   references reached (with multiplicity) + each cached request (image URL x orientation, external <use> of
+   a loaded SVG) once *)
 Theorem C20_expected_fetches W fails d :
   Permutation (fetches (snd (m_doc W fails [] d)))
-              (fetches (sem_doc W fails d) ++ dedup [] (requests (sem_doc W fails d))).
+              (fetches (sem_doc W fails d) ++ map key_url (dedup [] (requests (sem_doc W fails d)))).
 Proof. exact (expected_fetches W fails d). Qed.
 Print Assumptions C20_expected_fetches.
 
@@ -214,12 +234,14 @@ Theorem C20_diskcache_stale_object_refuted :
 Proof. exact dc_get_after_set_stale_refuted. Qed.
 Print Assumptions C20_diskcache_stale_object_refuted.
 
-(* the image cache of the state machine kept in a DiskCache answers like the machine's association list *)
-Theorem C20_diskcache_is_image_cache digest (c : cache) disk u :
-  afind disk (digest u) = None ->
-  let s := {| dc_mem := mem_of c; dc_disk := disk |} in
-  option_map loaded_of (dc_get digest s u) = cfind c u /\
-  dc_contains digest s u = is_some (cfind c u) /\
-  forall ok, dc_mem (dc_set digest s u (obj_of ok)) = mem_of ((u, ok) :: c).
-Proof. exact (diskcache_is_image_cache digest c disk u). Qed.
+(* the image cache of the state machine kept in a DiskCache (keys spelled injectively as strings) answers like
+   the machine's association list, failed images (None) included *)
+Theorem C20_diskcache_is_image_cache (show : rkey -> string) digest (c : cache) disk k :
+  (forall a b, show a = show b -> a = b) ->
+  afind disk (digest (show k)) = None ->
+  let s := {| dc_mem := mem_of show c; dc_disk := disk |} in
+  option_map loaded_of (dc_get digest s (show k)) = cfind c k /\
+  dc_contains digest s (show k) = is_some (cfind c k) /\
+  forall ok, dc_mem (dc_set digest s (show k) (obj_of ok)) = mem_of show ((k, ok) :: c).
+Proof. exact (fun H => diskcache_is_image_cache show H digest c disk k). Qed.
 Print Assumptions C20_diskcache_is_image_cache.
